@@ -126,6 +126,13 @@ def check_state(ctx):
     ci = repo.cls('extinction.extinction', 'Extinction')
     # ---- AGREE-1
     state_roundtrip(ctx, ci)
+    from ..staterules import conversion_roundtrip, extinction_from_file
+    from ..roundtrip import SuspectCtx
+    d_tab = conversion_roundtrip(ctx, ci, 'to_table', 'from_table', 'AGREE-1', 'table column')
+    d_file = extinction_from_file(ctx, 'AGREE-1')
+    if d_tab and d_file:
+        return
+    ctx = SuspectCtx(ctx, 'the conversion was not decided by interpretation and the syntactic rule, which knows one spelling only, reports')
     tt = ctx.fn(repo.func('extinction.extinction', 'Extinction.to_table'))
     ft = ctx.fn(repo.func('extinction.extinction', 'Extinction.from_table'))
     wcols = {}
